@@ -770,6 +770,9 @@ class SegmentationImage:
 
         labels = np.atleast_1d(labels)
         if labels.size == 0:
+            # nothing to reassign, but ``relabel`` is still honored
+            if relabel:
+                self.relabel_consecutive()
             return
 
         dtype = self.data.dtype  # keep the original dtype
